@@ -55,7 +55,7 @@ for k in extra:
 s=open('/verif/DESIGN.md').read()
 head=(f"**Where this ended (nine batches, 180 agents; numbers from the last `seeded/MATRIX.json`).** {F} faulty changes are kept: "
       f'{own} ({100*own//F} %) are reported by the check of the property they were written against, {e2} are "not decided" (exit 2 with the reason - '
-      f"the fault sits in code that was also restructured beyond what the rule reads), {miss} is reported only by a neighbouring property"
+      f"the fault sits in code that was also restructured beyond what the rule reads), {miss if miss else 'none'} {'is' if miss < 2 else 'are'} reported only by a neighbouring property"
       f"{' (' + ', '.join(missed) + ')' if missed else ''}. {B} behaviour-preserving changes are kept as negative examples: {sil} leave all twenty checks silent, "
       f'{be2} make at least one check say "not decided" (never a VIOLATION), {bv} are reported - both are rewrites of the CoAP counter-recovery loops whose '
       "rewind of `recv_ctr` is a recorded finding, re-reported by design under the new construct keys (see batch 7). "
